@@ -42,14 +42,14 @@ type c10Case struct {
 }
 
 type c10Env struct {
-	c       *restful.Container
-	recN    int
-	recVal  interface{}
-	ledger  *mon.Ledger
-	curLog  *wlog
-	curPos  string
-	lastErr error
-	kind    string
+	c          *restful.Container
+	recN       int
+	recVal     interface{}
+	ledger     *mon.Ledger
+	curLog     *wlog
+	curPos     string
+	lastErr    error
+	kind       string
 	lostClient bool // the next request comes from a client whose connection fails on every body write
 }
 
